@@ -93,8 +93,10 @@ fn x_tables() {
 }
 
 // ------------------------------------------------------------------ helpers
-// @ob name=c_forward_quad props=C08,C20 fn=cast6::forward_quad timeout=600
+// (table look-ups: z3 decides these in seconds, the SAT back ends need many minutes)
+// @ob name=c_forward_quad props=C08,C20 solver=z3 fn=cast6::forward_quad timeout=600
 #[kani::proof]
+#[kani::solver(z3)]
 fn c_forward_quad() {
     let mut beta: [u32; 4] = kani::any();
     let m: [u32; 4] = kani::any();
@@ -103,8 +105,9 @@ fn c_forward_quad() {
     forward_quad(&mut beta, &m, &rot);
     assert!(eq4(&beta, &want));
 }
-// @ob name=c_reverse_quad props=C08,C20 fn=cast6::reverse_quad timeout=600
+// @ob name=c_reverse_quad props=C08,C20 solver=z3 fn=cast6::reverse_quad timeout=600
 #[kani::proof]
+#[kani::solver(z3)]
 fn c_reverse_quad() {
     let mut beta: [u32; 4] = kani::any();
     let m: [u32; 4] = kani::any();
@@ -113,8 +116,9 @@ fn c_reverse_quad() {
     reverse_quad(&mut beta, &m, &rot);
     assert!(eq4(&beta, &want));
 }
-// @ob name=c_forward_octave props=C08,C20 fn=cast6::forward_octave timeout=600
+// @ob name=c_forward_octave props=C08,C20 solver=z3 fn=cast6::forward_octave timeout=600
 #[kani::proof]
+#[kani::solver(z3)]
 fn c_forward_octave() {
     let mut kappa: [u32; 8] = kani::any();
     let m: [u32; 8] = kani::any();
@@ -125,9 +129,11 @@ fn c_forward_octave() {
     assert!(eq4(&[kappa[4], kappa[5], kappa[6], kappa[7]], &[want[4], want[5], want[6], want[7]]));
 }
 // Q and QBAR under the same keys are mutually inverse (real functions, every key, both orders)
-// @ob name=l_quad_inverse props=C01 kind=lemma fn=cast6::forward_quad,cast6::reverse_quad timeout=600
+// (direct form, on the real code with its table look-ups: z3; cadical / kissat > 10 min)
+// @ob name=l_quad_inverse_real props=C01 kind=lemma solver=z3 fn=cast6::forward_quad,cast6::reverse_quad timeout=600
 #[kani::proof]
-fn l_quad_inverse() {
+#[kani::solver(z3)]
+fn l_quad_inverse_real() {
     let x: [u32; 4] = kani::any();
     let m: [u32; 4] = kani::any();
     let rot: [u8; 4] = kani::any();
@@ -138,6 +144,36 @@ fn l_quad_inverse() {
     reverse_quad(&mut b, &m, &rot);
     forward_quad(&mut b, &m, &rot);
     assert!(eq4(&b, &x));
+}
+
+// The same fact on the reference quad-rounds (which the real ones equal by c_forward_quad / c_reverse_quad) with the
+// round functions f1, f2, f3 uninterpreted: QBAR undoes Q (and Q undoes QBAR) whatever the three functions are.
+type FArg = (u8, u32, u8, u32);
+fn eq_farg(a: &FArg, b: &FArg) -> bool { a.0 == b.0 && a.1 == b.1 && a.2 == b.2 && a.3 == b.3 }
+sched_uf!(uf_f, FArg, (0, 0, 0, 0), u32, 0, 4, eq_farg);
+fn st_f1(d: u32, kr: u8, km: u32) -> u32 { uf_f::call((1, d, kr, km)) }
+fn st_f2(d: u32, kr: u8, km: u32) -> u32 { uf_f::call((2, d, kr, km)) }
+fn st_f3(d: u32, kr: u8, km: u32) -> u32 { uf_f::call((3, d, kr, km)) }
+fn reversed4(c: usize) -> usize { 3 - c }
+// @ob name=l_quad_inverse_ref props=C01 kind=lemma fn=cast6::forward_quad,cast6::reverse_quad uses=c_forward_quad,c_reverse_quad timeout=300
+#[kani::proof]
+#[kani::stub(bcref::cast6::f1, st_f1)]
+#[kani::stub(bcref::cast6::f2, st_f2)]
+#[kani::stub(bcref::cast6::f3, st_f3)]
+#[kani::unwind(6)]
+fn l_quad_inverse_ref() {
+    let x: [u32; 4] = kani::any();
+    let m: [u32; 4] = kani::any();
+    let rot: [u8; 4] = kani::any();
+    if kani::any() {
+        let y = r::q(x, &rot, &m);
+        uf_f::replay_with(reversed4);
+        assert!(eq4(&r::qbar(y, &rot, &m), &x));
+    } else {
+        let y = r::qbar(x, &rot, &m);
+        uf_f::replay_with(reversed4);
+        assert!(eq4(&r::q(y, &rot, &m), &x));
+    }
 }
 
 // @ob name=c_word_conversions props=C08,C20 fn=cast6::to_u32s,cast6::to_u8s timeout=300
@@ -215,7 +251,7 @@ fn c_decrypt_block() {
 /// second block operation the c-th call consults exactly ONE recorded call, the last one not yet consulted (a stack:
 /// the second operation undoes the quad-rounds of the first in reverse order) and, if that call had the opposite
 /// direction, the same keys and produced the present argument, returns that call's argument; otherwise an
-/// unconstrained value.  Every behaviour of the real pair is included, by l_quad_inverse (both orders) and
+/// unconstrained value.  Every behaviour of the real pair is included, by l_quad_inverse_ref / l_quad_inverse_real (both orders) and
 /// c_forward_quad / c_reverse_quad (pure functions of (beta, m, rot)).
 pub mod ufq {
     use super::eq4;
@@ -246,7 +282,7 @@ pub mod ufq {
     pub fn rev(beta: &mut [u32; 4], m: &[u32; 4], rot: &[u8; 4]) { any(false, beta, m, rot) }
 }
 // C01 for every value of the 48 + 48 round keys
-// @ob name=l_roundtrip_ed props=C01 kind=lemma fn=cast6::Cast6::encrypt_block,cast6::Cast6::decrypt_block uses=c_forward_quad,c_reverse_quad,l_quad_inverse timeout=900
+// @ob name=l_roundtrip_ed props=C01 kind=lemma fn=cast6::Cast6::encrypt_block,cast6::Cast6::decrypt_block uses=c_forward_quad,c_reverse_quad,l_quad_inverse_ref timeout=900
 #[kani::proof]
 #[kani::stub(forward_quad, ufq::fwd)]
 #[kani::stub(reverse_quad, ufq::rev)]
@@ -259,7 +295,7 @@ fn l_roundtrip_ed() {
     cipher::BlockCipherDecrypt::decrypt_block(&c, &mut blk);
     assert!(blk.0 == b);
 }
-// @ob name=l_roundtrip_de props=C01 kind=lemma fn=cast6::Cast6::encrypt_block,cast6::Cast6::decrypt_block uses=c_forward_quad,c_reverse_quad,l_quad_inverse timeout=900
+// @ob name=l_roundtrip_de props=C01 kind=lemma fn=cast6::Cast6::encrypt_block,cast6::Cast6::decrypt_block uses=c_forward_quad,c_reverse_quad,l_quad_inverse_ref timeout=900
 #[kani::proof]
 #[kani::stub(forward_quad, ufq::fwd)]
 #[kani::stub(reverse_quad, ufq::rev)]
